@@ -388,6 +388,82 @@ Section Scheduler.
   Definition notified_min (steps : list fstep) : option N := fold_left notify_min steps None.
 End Scheduler.
 
+(* ------------------------------------------------------------------ the record store's farthest record
+   NodeRecordStore: `records` (the keys held), `farthest_record` (key, distance) and the capacity
+   decisions of put_verified / prune_records_if_needed, mark_as_stored, remove, and a restart
+   (with_config restores the keys from disk and recomputes the farthest record).  Generic in the
+   distance `dk` of a record key to ourselves; the real instance is `key_dist H self_peer`.
+   Puts are settled (the write reported back and the key was marked as stored) before the next step. *)
+Section Store.
+  Variable dk : bytes -> N.
+  Definition far_t := option (bytes * N).
+  Definition store_t := (list bytes * far_t)%type.      (* held keys (a hash map: any order), farthest_record *)
+
+  (* calculate_farthest: sort by distance (stable), take the last *)
+  Definition calc_farthest (held : list bytes) : far_t :=
+    fold_left (fun acc k => match acc with
+                            | None => Some (k, dk k)
+                            | Some (_, d) => if d <=? dk k then Some (k, dk k) else acc
+                            end) held None.
+
+  Definition mem_key (k : bytes) (l : list bytes) : bool := existsb (bytes_eqb k) l.
+  Definition remove_key (k : bytes) (held : list bytes) : list bytes :=
+    filter (fun x => negb (bytes_eqb x k)) held.
+
+  (* RecordStore::remove *)
+  Definition store_remove (k : bytes) (s : store_t) : store_t :=
+    let held' := remove_key k (fst s) in
+    (held', match snd s with
+            | Some (fk, fd) => if bytes_eqb fk k then calc_farthest held' else Some (fk, fd)
+            | None => None
+            end).
+
+  Definition store_mark_as_stored (k : bytes) (s : store_t) : store_t :=
+    (if mem_key k (fst s) then fst s else fst s ++ [k],
+     match snd s with
+     | Some (fk, fd) => if fd <? dk k then Some (k, dk k) else Some (fk, fd)
+     | None => Some (k, dk k)
+     end).
+
+  (* prune_records_if_needed: None = Err(MaxRecords) *)
+  Definition store_prune (max_records : N) (k : bytes) (s : store_t) : option store_t :=
+    if N.of_nat (List.length (fst s)) <? max_records then Some s
+    else match snd s with
+         | Some (fk, fd) => if fd <? dk k then None else Some (store_remove fk s)
+         | None => Some s
+         end.
+
+  Inductive sstep := SPut (k : bytes) | SRemove (k : bytes) | SRestart.
+
+  (* result code: 0 = Ok, 1 = MaxRecords *)
+  Definition store_step (max_records : N) (s : store_t) (st : sstep) : store_t * N :=
+    match st with
+    | SPut k => match store_prune max_records k s with
+                | Some s' => (store_mark_as_stored k s', 0)
+                | None => (s, 1)
+                end
+    | SRemove k => (store_remove k s, 0)
+    | SRestart => ((fst s, calc_farthest (fst s)), 0)
+    end.
+
+  Definition store_run (max_records : N) (steps : list sstep) : store_t :=
+    fold_left (fun s st => fst (store_step max_records s st)) steps ([], None).
+
+  Definition same_keys (a b : list bytes) : bool :=
+    Nat.eqb (List.length a) (List.length b) && forallb (fun x => mem_key x b) a && forallb (fun x => mem_key x a) b.
+  Definition far_eqb (a b : far_t) : bool :=
+    match a, b with
+    | None, None => true
+    | Some (k, d), Some (k', d') => bytes_eqb k k' && (d =? d')
+    | _, _ => false
+    end.
+
+  Definition agree_store_step (max_records : N) (st : sstep) (pre_held : list bytes) (pre_far : far_t)
+             (res : N) (post_held : list bytes) (post_far : far_t) : bool :=
+    let '((held, far), code) := store_step max_records (pre_held, pre_far) st in
+    (code =? res) && same_keys held post_held && far_eqb far post_far.
+End Store.
+
 (* ------------------------------------------------------------------ agreement predicates
    (what the generated case files evaluate: "the model, run on this case, returns what the
    implementation returned") *)
@@ -454,6 +530,15 @@ Section Agree.
              (out : list bytes) : bool :=
     bytes_list_eqb (fetcher_add_keys H self_peer range keys) out.
 
+  (* SwarmDriver::get_closest_k_value_local_peers: ourselves, then the routing table ascending by distance
+     to ourselves (kademlia's closest_keys for our own key), cut at K_VALUE *)
+  Definition closest_k_value_local_peers (self_peer : bytes) (k_value : N) (table : list bytes) : list bytes :=
+    firstn (N.to_nat k_value)
+           (self_peer :: sort_on (fun p => distance H (from_peer self_peer) (from_peer p)) table).
+
+  Definition agree_closest_k (self_peer : bytes) (table : list bytes) (out : list bytes) : bool :=
+    bytes_list_eqb (closest_k_value_local_peers self_peer Consts.repl_k_value table) out.
+
   Definition agree_store_count (self_peer : bytes) (keys : list bytes) (range : N) (n : N) : bool :=
     records_within_distance_range H self_peer keys range =? n.
 
@@ -496,4 +581,23 @@ Section Agree.
                | (st, (pre_p, pre_o, pre_far), picked, (post_p, post_o, post_far)) =>
                    agree_fetch_step (lookup_dist tbl) maxp range st pre_p pre_o pre_far picked post_p post_o post_far
                end) steps.
+
+  Definition store_record := (sstep * (list bytes * far_t) * N * (list bytes * far_t))%type.
+  Definition store_record_keys (r : store_record) : list bytes :=
+    match r with
+    | (st, (pre_held, pre_far), _, _) =>
+        match st with SPut k | SRemove k => [k] | SRestart => [] end ++ pre_held
+    end.
+
+  (* a recorded store history; distances are computed once per key (see agree_fetch_sched) *)
+  Definition agree_store_hist (self_peer : bytes) (max_records : N) (keys : list bytes)
+             (steps : list store_record) : bool :=
+    let tbl := dist_table self_peer keys in
+    forallb (fun r : store_record =>
+               forallb (fun k => mem_key k keys) (store_record_keys r) &&
+               match r with
+               | (st, (pre_held, pre_far), res, (post_held, post_far)) =>
+                   agree_store_step (lookup_dist tbl) max_records st pre_held pre_far res post_held post_far
+               end) steps.
+
 End Agree.
